@@ -152,7 +152,8 @@ def canon(v):
     if isinstance(v, bool) or isinstance(v, int):
         return ("i", int(v))
     if isinstance(v, float):
-        return ("f", "nan") if v != v else ("f", v)
+        # signed zeros are two values (1 / x, copysign and str tell them apart; the property lists them)
+        return ("f", "nan") if v != v else (("f", v) if v != 0 else ("f", v, math.copysign(1.0, v)))
     if isinstance(v, str):
         return ("s", v)
     if isinstance(v, PurePosixPath):
